@@ -56,4 +56,14 @@ Definition arr_back (l : list A) : option A := arr_index l (length l - 1). (* _s
 Definition arr_iter (l : list A) : list A := l.                            (* [begin(), end()) *)
 Definition arr_concat (ls : list (list A)) : list A :=                     (* array_concat: res{} then concat_insert *)
   fold_left (fun acc l => acc ++ l) ls [].
+(* bool operator==(const array &) const = default: memberwise == on _stor, i.e. element by element with
+   the ELEMENT TYPE's own operator== (which need not be reflexive: NaN; nor bitwise: -0.0 == +0.0, padding). *)
+Variable eqA : A -> A -> bool.
+Fixpoint arr_eqb (l1 l2 : list A) : bool :=
+  match l1, l2 with
+  | [], [] => true
+  | x :: r, y :: s => eqA x y && arr_eqb r s
+  | _, _ => false
+  end.
+Definition arr_neb (l1 l2 : list A) : bool := negb (arr_eqb l1 l2).        (* != is synthesized from == *)
 End Array.
